@@ -102,6 +102,8 @@ pub enum SOp {
 #[derive(Clone, Debug, PartialEq, Eq)]
 pub enum Op {
     Push(MoveLike),
+    /// `unsafe push_unchecked` of a move that is legal for the model and for `Move::validate`
+    PushUnchecked(RMove),
     PushUciList(String),
     Pop,
     SetOutcome(OutcomeSpec),
@@ -475,6 +477,7 @@ impl Op {
     pub fn encode(&self) -> String {
         match self {
             Op::Push(ml) => format!("push {}", ml.encode()),
+            Op::PushUnchecked(m) => format!("push_unchecked {}", enc_rmove(m)),
             Op::PushUciList(s) => format!("push_uci_list {}", hex(s)),
             Op::Pop => "pop".into(),
             Op::SetOutcome(o) => format!("set_outcome {}", o.encode()),
@@ -502,7 +505,7 @@ impl Op {
             Op::Push(ml) | Op::BoardMake(ml) => ml.pretty(),
             Op::PushUciList(s) | Op::FenProbe(s) => format!("{:?}", s),
             Op::S(_, SOp::TryRaw(ml)) | Op::S(_, SOp::Functional(ml)) => ml.pretty(),
-            Op::S(_, SOp::Make(m)) | Op::S(_, SOp::TryUnchecked(m)) => m.uci(),
+            Op::S(_, SOp::Make(m)) | Op::S(_, SOp::TryUnchecked(m)) | Op::PushUnchecked(m) => m.uci(),
             _ => return e,
         };
         format!("{} # {}", e, c)
@@ -516,6 +519,7 @@ impl Op {
         let t: Vec<&str> = line.split(' ').filter(|x| !x.is_empty()).collect();
         Some(match *t.first()? {
             "push" => Op::Push(MoveLike::decode(&t[1..])?.0),
+            "push_unchecked" => Op::PushUnchecked(dec_rmove(&t[1..])?.0),
             "push_uci_list" => Op::PushUciList(unhex(t.get(1)?)?),
             "pop" => Op::Pop,
             "set_outcome" => Op::SetOutcome(OutcomeSpec::decode(&t[1..])?.0),
